@@ -339,6 +339,47 @@ def corr_printer(ctx, quick):
 # ------------------------------------------------------------------ round 3: one worker per chromosome, one database
 PRE_X = "From IQ Require Import Ids IdsSpec IdsMulti IdsMultiSpec.\nOpen Scope Z_scope.\n"
 
+OTHER_CHR_KEY = "C17:reference-id-names-other-chromosome"
+
+def report_exon_collisions(ctx, o):
+    """every exon id returned for keys of two different chromosomes is a violation of 'distinct exons carry distinct IDs across all
+    chromosomes'.  Structural key: the id is an exon_id attribute of a reference exon located on chromosome A, its text is <B>.<n> for
+    another chromosome B, and the storage of B issued it for an exon that is not a reference exon of B carrying that id."""
+    feats = o["reference_features"]; queries = o["queries(chr,keys)"]; outs = o["returned"]
+    for (c1, k1), a in zip(queries, outs):
+        for (c2, k2), b in zip(queries, outs):
+            if c1 == c2: continue
+            for key_b, v in zip(k2, b):
+                if v not in a: continue
+                key_a = k1[a.index(v)]
+                ref_a = any(sid == c1 and ty == "exon" and attr and attr[0] == v and (sid, st, en, sd) == tuple(key_a) for sid, ty, st, en, sd, attr in feats)
+                ref_on_b = any(sid == c2 and ty == "exon" and attr and attr[0] == v for sid, ty, st, en, sd, attr in feats)
+                m = re.fullmatch(r"(.*)\.(\d+)", v)
+                named = m is not None and m.group(1) == c2 and v == "%s.%d" % (c2, int(m.group(2)))
+                structural = ref_a and not ref_on_b and named and c1 != c2
+                if not structural and not (c1 < c2): continue          # report an unclassified pair once
+                ctx.violation(OTHER_CHR_KEY if structural else None,
+                              "exon id %r is carried by the reference exon %r of chromosome %s and issued again by the FeatureIdStorage of chromosome %s for the new exon %r" % (v, tuple(key_a), c1, c2, tuple(key_b))
+                              if structural else "exon id %r is returned for exons of two chromosomes: %r and %r" % (v, tuple(key_a), tuple(key_b)),
+                              {"correspondence": "exon-ids-across-chromosomes", "case": o})
+
+def report_distributor_collisions(ctx, o):
+    """an id built from an issued number that is an id of the reference violates 'novel IDs never collide with IDs present in the reference
+    annotation'.  Structural key: the reference id has IsoQuant's generated shape naming chromosome B, is located on another chromosome A only,
+    and the number was issued by the distributor of B."""
+    feats = o["features(seqid,kind,id)"]; queries = o["queries(chr,n)"]; outs = o["issued"]
+    for (c, _), xs in zip(queries, outs):
+        for x in xs:
+            for kinds, ids in (((1, 2), ["transcript%d.%s.nic" % (x, c), "transcript%d.%s.nnic" % (x, c)]), ((0,), ["novel_gene_%s_%d" % (c, x)])):
+                for i in ids:
+                    where = sorted(set(sid for sid, kind, fid in feats if kind in kinds and fid == i))
+                    if not where: continue
+                    structural = c not in where            # the colliding reference id sits only on chromosomes other than the one its text names
+                    ctx.violation(OTHER_CHR_KEY if structural else None,
+                                  "the ExcludingIdDistributor of chromosome %s issues %d although the reference id %r (located on %s) is built from it" % (c, x, i, ", ".join(where)),
+                                  {"correspondence": "distributors-across-chromosomes", "case": o})
+
+
 def corr_cross_chromosome(ctx, quick):
     """REAL FeatureIdStorage / ExcludingIdDistributor objects, one per chromosome, over ONE fake database holding all chromosomes"""
     from src.id_policy import FeatureIdStorage, SimpleIDDistributor, ExcludingIdDistributor
@@ -359,6 +400,7 @@ def corr_cross_chromosome(ctx, quick):
     w = storages([("chrA", "exon", 100, 200, "+", ["chrB.1"]), ("chrB", "exon", 500, 600, "+", ["ENSE7"])],
                  [("chrA", [("chrA", 100, 200, "+")]), ("chrB", [("chrB", 700, 800, "+")])], "C17_exon_ids_across_chromosomes_without_cross_clean_refuted")
     if w != [["chrB.1"], ["chrB.1"]]: ctx.broken("witness:exon-ids-across-chromosomes", "the implementation no longer reproduces the model's witness: %r" % (w,))
+    report_exon_collisions(ctx, cases[-1][1])
     storages([("chrA", "exon", 100, 200, "+", ["ENSE7"]), ("chrB", "exon", 100, 200, "+", ["ENSE7"])],
              [("chrA", [("chrA", 100, 200, "+")]), ("chrB", [("chrB", 100, 200, "+")])], "C17_exon_ids_shared_reference_id_refuted")
     storages([], [("chr1", [("chr1", 10, 20, "+"), ("chr1", 30, 40, "+"), ("chr1", 50, 60, "+")]), ("chr1.2", [("chr1.2", 10, 20, "+"), ("chr1.2", 30, 40, "+")])], "C17_dotted_chromosome_names_example")
@@ -399,6 +441,7 @@ def corr_cross_chromosome(ctx, quick):
         return outs
     w = distributors([("chrA", 1, "transcript1.chrB.nic"), ("chrA", 0, "novel_gene_chrB_2"), ("chrB", 1, "ENST1")], [("chrB", 2), ("chrA", 2)], "C17_novel_ids_without_home_ok_refuted")
     if w != [[1, 2], [3, 4]]: ctx.broken("witness:distributors-across-chromosomes", "the implementation no longer reproduces the model's witness: %r" % (w,))
+    report_distributor_collisions(ctx, cases[-1][1])
     names = ["chr1", "chr1.2", "1", "1_2", "chr1_2", "chrA", "c", "c.nic"]
     for _ in range(700 if quick else 5000):
         chrs = rnd.sample(names, rnd.randint(2, 3)); feats = []
